@@ -29,17 +29,24 @@ OK, FAIL, DONE = 0, 1, 2
 DFT = nmfu.DFTransition
 
 
-def strict_seq(events, hooks_only=False):
+def strict_seq(events, hooks_only=False, optional=None, flags=None):
+    """optional: indices (into events) of reference events that were pending when a handled error struck; flags (a list) receives one
+    bool per produced entry."""
     out = []
-    for e in events:
+    for i, e in enumerate(events):
         k = e[1]
+        opt = optional is not None and i in optional
         if k == "hook":
             if any(v == "?" for _, v in e[2][1]):
                 out.append(("hook", e[2][0], None))      # outputs uncertain (T3): compare the call only
-                continue
-            out.append(("hook", e[2][0], e[2][1]))
+            else:
+                out.append(("hook", e[2][0], e[2][1]))
         elif k == "append" and not hooks_only:
             out.append(("append",) + tuple(e[2]))
+        else:
+            continue
+        if flags is not None:
+            flags.append(opt)
     return out
 
 
@@ -50,8 +57,20 @@ def ev_eq(r, a):
     return r == a
 
 
-def seq_eq(rs, as_):
-    return len(rs) == len(as_) and all(ev_eq(r, a) for r, a in zip(rs, as_))
+def seq_eq(rs, as_, rflags=None):
+    """rflags: per reference entry, True if the machine may have skipped it (pending at a handled error, T3)."""
+    if rflags is None:
+        return len(rs) == len(as_) and all(ev_eq(r, a) for r, a in zip(rs, as_))
+    i = j = 0
+    while i < len(rs):
+        if j < len(as_) and ev_eq(rs[i], as_[j]):
+            i += 1
+            j += 1
+        elif rflags[i]:
+            i += 1
+        else:
+            return False
+    return j == len(as_)
 
 
 def structural_problems(comp):
@@ -127,19 +146,22 @@ def check_program(shard, prog, argv, max_len, do_c=True):
         want = expected_end_code(prog, ref)
         # events performed during end() by the machine = machine events of end; the reading's events beyond those already performed
         am_seq = strict_seq([(k, kd, pl) for k, kd, pl in tl.events]) + strict_seq([(len(word), e[0], walk.payload_of(e)) for e in r.events if e[0] in walk.OBSERVABLE])
-        ri_seq = strict_seq(ref.events)
+        ri_flags = []
+        ri_seq = strict_seq(ref.events, optional=ref.optional, flags=ri_flags)
+        if any(ri_flags):
+            shard.event("relaxed:t3_pending_at_handled_error")
         if want == FAIL:
             # actions pending when the error strikes may or may not have run (T3): one sequence must be a prefix of the other
             k_ = min(len(am_seq), len(ri_seq))
             ok = (r.code == want) and seq_eq(ri_seq[:k_], am_seq[:k_])
         else:
-            ok = (r.code == want) and seq_eq(ri_seq, am_seq)
+            ok = (r.code == want) and seq_eq(ri_seq, am_seq, ri_flags)
         if ok and want != FAIL:
             final = trace.norm_am_vars(c2.frozen_vars())
             if not prog_has_plain_set(prog) and any(v != "?" and final.get(k) != v for k, v in ref.final.items()):
                 ok = False
         if not ok:
-            kind = "code" if r.code != want else ("events" if not seq_eq(ri_seq, am_seq) else "outputs")
+            kind = "code" if r.code != want else ("events" if not seq_eq(ri_seq, am_seq, ri_flags) else "outputs")
             raise Failure("c17:end-%s:%s" % (kind, "expected-%s" % ("FAIL" if want == FAIL else "DONE" if want == DONE else "FINISH")),
                           "input %s then end(): reading -> code %d events %r final %r\n machine -> code %d events %r\n%s"
                           % (word.hex(), want, ri_seq[-4:], ref.final, r.code, am_seq[-4:], src), dict(replay, input=word.hex()))
@@ -150,7 +172,9 @@ def check_program(shard, prog, argv, max_len, do_c=True):
         else:
             shard.event("class:end_fails")
         if len(words_for_c) < 25 and (sum(word) + len(word)) % 3 == 0:
-            words_for_c.append((word, want, strict_seq(ref.events, hooks_only=True)))
+            hflags = []
+            hseq = strict_seq(ref.events, hooks_only=True, optional=ref.optional, flags=hflags)
+            words_for_c.append((word, want, (hseq, hflags)))
 
     try:
         stats = walk.joint_walk([m], alphabet, max_len, visit, node_cap=2500)
@@ -184,8 +208,9 @@ def check_program(shard, prog, argv, max_len, do_c=True):
                             raise Failure("c17:c-terminated-early", "input %s: C terminated before end() but the machine did not" % w.hex(), dict(replay, input=w.hex()))
                         continue
                     got_hooks = [("hook", h[0], h[2]) for c in calls for h in c.hooks]
+                    hooks, hflags = hooks
                     k_ = min(len(got_hooks), len(hooks))
-                    hooks_ok = seq_eq(hooks, got_hooks) if want != FAIL else seq_eq(hooks[:k_], got_hooks[:k_])
+                    hooks_ok = seq_eq(hooks, got_hooks, hflags) if want != FAIL else seq_eq(hooks[:k_], got_hooks[:k_])
                     if ends[0].code != want or not hooks_ok:
                         raise Failure("c17:c-end-%s%s" % ("code" if ends[0].code != want else "hooks", ":strict" if extra else ""),
                                       "input %s then end() through C (%s): expected code %d hooks %r, got code %d hooks %r\n%s"
